@@ -218,6 +218,14 @@ def handle (op : String) (args : List String) : Option String :=
     match ← parseObs tree with
     | none => pure (if r == "err" || r == "panic" then "holds" else "fails leaf:-")
     | some t => pure (leafOracle t ev r)
+  | "c31.regex", [kind, pat, text] => do
+    let pat ← _root_.Wire.bytesOfHex pat
+    let text ← _root_.Wire.bytesOfHex text
+    if kind == "w" then pure (if Glob.wild pat text then "true" else "false")
+    else if kind == "b" then
+      -- word boundaries: the reference is ASCII only
+      if (pat ++ text).all (· < 128) then pure (if Glob.word pat text then "true" else "false") else pure "oom"
+    else none
   | "c31.path", [t] => do
     let t ← strOfHex t
     pure (showPathOut (parseValuePath t))
